@@ -20,7 +20,7 @@ BOUNDS = {"scenarios": "job document write on empty / small / 2 KiB document; do
           "crash": "before ANY step k >= 0 (unbounded), or torn write of 0 / 1 / half / len-1 bytes at step k", "fault": "step k fails with EIO / ENOSPC / EACCES / EROFS",
           "reader": "one reader opening the target before ANY writer step i and reading it before ANY writer step j >= i (all interleavings of a 2-step reader with the writer)",
           "thread-safety switch": "both states of synced_collections' multithreading support (enabled = default, disabled)"}
-OUTSIDE = ["power-loss ordering / fsync", "network file systems", "readers that read in several chunks", "the v1->v2 migration's project document write (covered by C20 on the real file system)"]
+OUTSIDE = ["power-loss ordering / fsync", "network file systems", "readers that read in several chunks"]
 STUBS = ["MemFS for os/open/uuid/gzip (validated against tmpfs on every run; counterexamples replayed on the real file system)"]
 ASSUMPTIONS = ["POSIX rename atomicity", "process-crash durability of completed calls"]
 
@@ -276,7 +276,78 @@ def h_reader(scn: int, which: int, i: int, d: int, mt: bool):
     assert r[0]
 
 
+def _migration_doc_case(k, t, named, mt=True):
+    """the v1->v2 migration writes the project name into the project document: that write must be atomic too.
+    Real file system; only the JSON document back end runs on numbered steps (crash before step k / torn write)."""
+    import os, shutil, io, contextlib
+    import synced_collections.backends.collection_json as CJ_
+    from signac.migration import apply_migrations
+    root = "/dev/shm/vf_c10mig_%d" % os.getpid()
+    shutil.rmtree(root, ignore_errors=True)
+    os.makedirs(os.path.join(root, "workspace"))
+    with open(os.path.join(root, "signac.rc"), "w") as f:
+        f.write("project = %s\nschema_version = 1\n" % ("myproject" if named else "None"))
+    docfn = os.path.join(root, "signac_project_document.json")
+    old = b'{"existing": {"k": [1, 2, 3]}, "pad": "' + b"x" * 300 + b'"}'
+    with open(docfn, "wb") as f:
+        f.write(old)
+    fs = memfs.PassthroughFS()
+    saved = (CJ_.os, getattr(CJ_, "open", None), CJ_.uuid)
+    fo = memfs.fake_os(fs)
+    CJ_.os, CJ_.open = fo, fs.open
+    plan = FaultPlan(2 if t else 1, k, t=t)
+    fs.hook = plan
+    problems = []
+    _mt(mt)
+    try:
+        try:
+            with contextlib.redirect_stderr(io.StringIO()):
+                apply_migrations(root)
+        except memfs.Crash:
+            pass
+        except RuntimeError as e:
+            if not isinstance(e.__cause__, memfs.Crash) and "Crash" not in repr(e.__cause__):
+                pass
+        except BaseException as e:  # noqa  (apply_migrations wraps exceptions; a Crash may arrive wrapped)
+            if not isinstance(e, memfs.Crash):
+                raise
+        with open(docfn, "rb") as f:
+            data = f.read()
+        try:
+            v = json.loads(data)
+        except ValueError:
+            v = None
+        want_new = dict(json.loads(old), signac_project_name="myproject")
+        if v != json.loads(old) and not (named and v == want_new):
+            problems.append(("project document neither old nor new after a crash in the migration", data[:60]))
+    finally:
+        _mt(True)
+        fs.hook = None
+        CJ_.os, CJ_.uuid = saved[0], saved[2]
+        if saved[1] is None:
+            del CJ_.open
+        else:
+            CJ_.open = saved[1]
+        try:
+            os.unlink(os.path.join(root, ".SIGNAC_PROJECT_MIGRATION_LOCK"))
+        except OSError:
+            pass
+        shutil.rmtree(root, ignore_errors=True)
+    return problems, plan.fired
+
+
+def h_migration_doc(k: int, t: int, named: bool, mt: bool):
+    assert 0 <= k and 0 <= t <= 2
+    fresh_path()
+    t, named, mt = pick([0, 1, -2], t), cb(named), cb(mt)
+    with nt():
+        problems, fired = _migration_doc_case(k, t, named, mt)
+    reached()
+    assert not problems
+
+
 HARNESSES = [
+    dict(name="h_migration_doc", timeout=(300, 600), unblock=True),
     dict(name="h_crash", twin="h_crash__reach", timeout=(600, 1500), parts=(11, 11)),
     dict(name="h_fault", timeout=(600, 1500), parts=(11, 11)),
     dict(name="h_reader", timeout=(600, 1500), parts=(11, 11)),
